@@ -92,6 +92,9 @@ func buildC03(tier string, seed int64) *Family {
 			add("*[*["+p+"]/*]", inCfg)
 		}
 	}
+	for _, t := range []string{"//*[(a)[2]]", "//*[(*)[1]]", "//*[(*)[2]/*]", "*[(a | b)[2]]", "//a[. = (../a)[2]]"} {
+		add(t, inCfg)
+	}
 	// (E)[n]
 	for _, e := range []string{"a", "*", "//a", "//*", "@*", "*/a", "a/@a", "*/*", "descendant::a", "descendant::*", "self::*", "child::node()", "*/@*"} {
 		for _, n := range []string{"1", "2", "3"} {
